@@ -30,6 +30,10 @@ type c11Profile struct {
 	} `yaml:"routing"`
 	API struct {
 		OpenAICompatible bool `yaml:"openai_compatible"`
+		AnthropicSupport *struct {
+			Enabled      bool   `yaml:"enabled"`
+			MessagesPath string `yaml:"messages_path"`
+		} `yaml:"anthropic_support"`
 	} `yaml:"api"`
 }
 
@@ -252,4 +256,14 @@ func (propC11) Check(r *Run) []Violation {
 		}
 	}
 	return out
+}
+
+// native reports whether an endpoint type's profile declares native Anthropic support.
+func (t *c11Truth) native(typ string) bool {
+	for _, c := range t.canonical(typ) {
+		if p := t.profiles[c]; p != nil && p.API.AnthropicSupport != nil && p.API.AnthropicSupport.Enabled {
+			return true
+		}
+	}
+	return false
 }
